@@ -15,7 +15,7 @@ PID = 'C17'
 
 
 def units(tier, seed):
-    return [{'name': f'corpus {name}', 'fn': 'unit_item', 'args': {'item': name, 'n': 1, 'm': 1},
+    return [{'name': f'corpus {name}', 'fn': 'unit_item', 'args': {'item': name, 'n': 1, 'm': 1, 'tier': tier},
              'split': 0}
             for name in c17_corpus.ITEMS]
 
@@ -23,6 +23,7 @@ def units(tier, seed):
 def unit_item(args, prefix=(), max_depth=None):
     name = args['item']
     core.set_width(10)
+    nondet.FULL_PERMUTATIONS_UPTO = 4 if args.get('tier') == 'thorough' else 3
     concepts = nondet.load_concepts(common.REPO)
     seen = {}
     pre = c17_corpus.prepare(concepts, name)
